@@ -384,6 +384,36 @@ func genAliasHistories(cw *caseWriter, prop string, r *rng, n int) {
 					js := pick(r, jsons)
 					extForJSON([]byte(js), ext)
 					op = "st " + hxs(js)
+					if i := pickRow(); i >= 0 && r.chance(1, 2) {
+						// a THROWAWAY copy of a row (CloneRow, or CreateRow(row)) whose cells are then given other contents
+						// through every door a cell has of its own — Import of a scalar, an array, a map; json.Unmarshal
+						// into the cell — and dropped: for the model nothing happened; the source row, the template and
+						// every other row must show nothing of it
+						var c jsonline.Row
+						if r.chance(1, 2) {
+							c = jsonline.CloneRow(rows[i])
+						} else {
+							c, _ = t.CreateRow(rows[i])
+						}
+						if c != nil {
+							it := c.IterValues()
+							for _, cell, ok := it(); ok; _, cell, ok = it() {
+								switch r.intn(5) {
+								case 0:
+									_ = json.Unmarshal([]byte(`{"zq":1,"b":[2,{"y":3}]}`), cell)
+								case 1:
+									_ = json.Unmarshal([]byte(`[{"zq":1}]`), cell)
+								case 2:
+									_ = cell.Import(map[string]interface{}{"zq": 1})
+								case 3:
+									_ = cell.Import("thrown away")
+								default:
+									_ = json.Unmarshal([]byte(`"x"`), cell)
+								}
+							}
+						}
+						break
+					}
 					var out bytes.Buffer
 					imp := t.GetImporter(strings.NewReader(js + "\n"))
 					_ = jsonline.NewStreamer(imp, t.GetExporter(&out)).WithProcessor(jsonline.NoFailureProcessor).Stream()
